@@ -172,8 +172,10 @@ theorem expected_vars_present :
   decide
 
 set_option maxRecDepth 8000 in
-/-- every memory write reachable from `(*Engine).Run` targets one of the two guarded caches, per-run
-state, or a variable of a per-run closure -/
+/-- every memory write reachable from `(*Engine).Run` — an instruction of the repository, or a library method
+with a pointer receiver called on an object kept by value in shared state — targets one of the two guarded
+caches, per-run state, or a variable of a per-run closure, or is a lock operation on one of the two guard
+mutexes -/
 theorem write_sites_confined : Confined Gen.WriteSites.sites := by
   have h : Gen.WriteSites.sites.all siteOK = true := by decide
   intro w hw
